@@ -137,6 +137,14 @@ func c11Exec(c fw.Case) *fw.Result {
 		h := hist.BurstZ(c.Int("way") == 1, reg, int(c.Int("n")), int(c.Int("idx")), c.Int("zones") == 1)
 		run := c11One(res, h, gen.New(1, "c11burst"), "enumerated same-instant burst")
 		res.Sample = map[string]any{"history": h, "observed": run.Observed()}
+	case "subsec":
+		reg := hist.Commit
+		if c.Int("stamp") == 1 {
+			reg = hist.Stamp
+		}
+		h := hist.SubSecond(c.Int("way") == 1, reg, c.Int("tick_ns"), c.Int("eps"), c.Int("delta"), c.Int("samecs") == 1)
+		run := c11One(res, h, gen.New(1, "c11subsec"), "enumerated sub-second instants")
+		res.Sample = map[string]any{"history": h, "observed": run.Observed()}
 	case "corner":
 		r := gen.New(c.Seed, "c11corner")
 		n := int(c.Int("n"))
@@ -169,7 +177,7 @@ func c11Exec(c fw.Case) *fw.Result {
 				h.Mixed = true
 				h.MixSec = h.Parents[r.Intn(len(h.Parents))].Sec + r.Int64Range(-100, 100)
 				if r.Chance(0.3) { // straddle osm.CommitInfoStart itself
-					shift := osm.CommitInfoStart.Unix() - h.MixSec
+					shift := h.Tick(osm.CommitInfoStart) - h.MixSec
 					h.MixSec += shift
 					for i := range h.Parents {
 						h.Parents[i].Sec += shift
@@ -210,6 +218,27 @@ func c11Cases(tier string, seed uint64) []fw.Case {
 			}
 		}
 	}
+	// enumerated sub-second instants (seed independent): a child edit delta ticks from a parent
+	// version: the same instant, 1 tick before / after, earlier / later inside the same second
+	for _, way := range []int64{1, 0} {
+		for _, stamp := range []int64{0, 1} {
+			for _, tick := range []int64{1, 1000000} {
+				tps := int64(1000000000) / tick
+				for _, delta := range []int64{0, 1, -1, tps / 2, -tps / 10, tps*4/5 - 1, tps * 4 / 5, -tps / 5, -tps/5 - 1} {
+					for _, samecs := range []int64{0, 1} {
+						if stamp == 0 && samecs == 1 {
+							continue
+						}
+						eps := int64(0)
+						if stamp == 1 && (delta+samecs)%2 == 0 {
+							eps = 1
+						}
+						cs = append(cs, fw.Case{Kind: "subsec", P: map[string]int64{"way": way, "stamp": stamp, "tick_ns": tick, "delta": delta, "samecs": samecs, "eps": eps}})
+					}
+				}
+			}
+		}
+	}
 	for _, what := range []string{"empty", "dsfail", "mixed"} {
 		cs = append(cs, fw.Case{Kind: "corner", Seed: gen.Sub(seed, "c11corner-"+what, 0), P: map[string]int64{"n": corner}, S: map[string]string{"what": what}})
 	}
@@ -235,10 +264,11 @@ func init() {
 		Rule: "generated edit histories (ways over nodes, relations over node/way/relation members; 1-6 parent versions, 1-8 children with repeats, 1-10(+1) versions per child; " +
 			"edits before/between/after/at the instant of parent versions and at window edges; deletions, undeletions, children entering and leaving, deleted parent versions; " +
 			"commit-time regime and timestamp regime with thresholds {0,1s,30s,30min(default or explicit),2h}; in 40% of the histories the timestamps / commit times are expressed in mixed time.Locations (UTC, fixed zones, same offset with another name, offset 0 that is not UTC, Local) without changing the instants; options IgnoreInconsistency, IgnoreMissingChildren, ChildFilter with pre-annotated input) " +
+			"40% of the histories are re-expressed with millisecond / nanosecond fractions (child and parent edits inside one second in both orders, 1 tick apart, exactly together; time-travel instants with fractions), plus an enumerated sub-second family (child edit 0, +-1 tick, earlier/later in the same second as a parent version), " +
 			"plus an enumerated family of same-instant bursts (n versions in one second x child at 1-3 indices) and corner inputs (empty history, failing datasource, mixed regimes: run only). " +
 			"Each history is annotated once; oracles: base child and update set per (parent version, index) against the reference (exact for the commit regime and for well-separated windows, acceptable-set otherwise), " +
 			"error class justified by the history, untouched references (deleted parents, filtered, missing), and time travel: ApplyUpdatesUpTo(t) on a clone for sampled t in [T_i, T_i+1 - eps) compared with the version in effect at t. " +
-			"Signature = (parent kind, regime, threshold, #parent versions, option set, outcome class, strict/permissive); pattern classes used (at, fwd, foreign, inwin, edge, samesec, samesec-zones, zones, del, undel, enter, leave, repeat, pdel, late-create, after-last, pre, missing, empty) and their combinations are counted separately.",
+			"Signature = (parent kind, regime, threshold, #parent versions, option set, outcome class, strict/permissive); pattern classes used (subsecond, same-second-before-parent, same-second-after-parent, at, fwd, foreign, inwin, edge, samesec, samesec-zones, zones, del, undel, enter, leave, repeat, pdel, late-create, after-last, pre, missing, empty) and their combinations are counted separately.",
 		Assumptions: []string{
 			"child version times are non-decreasing in version order and parent version times strictly increase (histories with clocks running backwards are not generated)",
 			"a history is in one regime: all elements carry commit times on or after osm.CommitInfoStart (timestamps too), or none does; mixed-regime histories (incl. timestamp < CommitInfoStart <= committed) are executed (must not panic) but not asserted",
